@@ -257,7 +257,14 @@ class NDNApp:
                 nack_reason = None
             pit_token = lp_pkt.pit_token
             data = lp_pkt.fragment
-            typ, _ = enc.parse_tl_num(data)
+            if not data:
+                # IDLE packet: no (or an empty) Fragment, nothing to deliver
+                return
+            try:
+                typ, _ = enc.parse_tl_num(data)
+            except (IndexError, struct.error):
+                self.logger.warning('Unable to decode received packet')
+                return
         else:
             nack_reason = None
             pit_token = None
